@@ -234,7 +234,9 @@ func c05(c *core.Ctx, r *core.Report) {
 		sub := core.NewReport("C04", c.Tier, 0)
 		c04Explore(c, sub, T)
 		for _, o := range sub.Obls {
-			if o.Rule == "C04.A1" || o.Rule == "C04.A2" || o.Rule == "C04.A3" || o.Verdict == core.Undecided {
+			// A4: what a failed creation leaves behind would be handed out as created - a component that never
+			// finished (or never re-runs) its lifecycle
+			if o.Rule == "C04.A1" || o.Rule == "C04.A2" || o.Rule == "C04.A3" || o.Rule == "C04.A4" || o.Verdict == core.Undecided {
 				o2 := *o
 				o2.Rule = "C05.R5"
 				o2.Construct = o.Rule + ":" + o.Construct
